@@ -228,6 +228,152 @@ def job_order(j, seed):
     return {'obligations': obs, 'candidates': cands, 'paths': npaths}
 
 
+def job_framechop(j, seed):
+    """Frame.chop = union over (subframe, opening) pairs: with the clipping step replaced by a recorder whose
+    emptiness answers are symbolic, every pair of a subframe with an opening is clipped (open side, then close side)
+    unless their intersection is provably empty; openings are listed in no particular order."""
+    nsub, nopen = j
+    import z3
+    from symex import core as C
+    from .symutil import fresh_run
+
+    sc, cc = _load()
+    fresh_run()
+    obs, cands = [], []
+    tag = f'framechop[{nsub} subframes x {nopen} openings]'
+    case = {'kind': 'framechop', 'nsub': nsub, 'nopen': nopen}
+    nv = 3
+    ts = [[C.sym_var(f's{q}t{i}') for i in range(nv)] for q in range(nsub)]
+    ws = [[C.sym_var(f's{q}w{i}', sign='+') for i in range(nv)] for q in range(nsub)]
+    op = [C.sym_var(f'open{k}') for k in range(nopen)]
+    cl = [C.sym_var(f'close{k}') for k in range(nopen)]
+    d0 = C.sym_var('d0', sign='0+')
+    dd = C.sym_var('dd', sign='0+')
+    for q in range(nsub):
+        # triangles of non-zero area (a degenerate polygon carries no neutrons)
+        C.CTX.assume((ts[q][1] - ts[q][0]) * (ws[q][2] - ws[q][0]) - (ts[q][2] - ts[q][0]) * (ws[q][1] - ws[q][0]) != 0)
+    frame = cc.Frame(distance=sc.scalar(d0, unit='m'), subframes=[cc.Subframe(time=_var(ts[q], 'vertex', 's'), wavelength=_var(ws[q], 'vertex', 'angstrom')) for q in range(nsub)])
+    chopper = cc.Chopper(distance=sc.scalar(d0 + dd, unit='m'), time_open=_var(op, 'slit', 's'), time_close=_var(cl, 'slit', 's'))
+    C.CTX.fork_timeout_ms = 3000
+
+    class Tok:
+        """Stands for the polygon parent intersected with {t >= T} (side True) or {t <= T}; behaves like a subframe for reads."""
+
+        def __init__(self, parent, T, side):
+            self.parent, self.T, self.side = parent, T, side
+            base = parent
+            while isinstance(base, Tok):
+                base = base.parent
+            self.base = base
+            self.time, self.wavelength = base.time, base.wavelength
+
+        @property
+        def start_time(self):
+            return self.base.start_time
+
+        @property
+        def end_time(self):
+            return self.base.end_time
+
+        @property
+        def start_wavelength(self):
+            return self.base.start_wavelength
+
+        @property
+        def end_wavelength(self):
+            return self.base.end_wavelength
+
+    calls = []
+    real = cc._chop
+
+    def fake(frame_, T, close_to_open):
+        calls.append((frame_, T, close_to_open))
+        nonempty = C.B('z3', z3.Bool(f'nonempty!{len(calls)}'))
+        if not bool(nonempty):
+            return None
+        return Tok(frame_, T, close_to_open)
+
+    cc._chop = fake
+    try:
+        def run():
+            calls.clear()
+            out = frame.chop(chopper)
+            return out, list(calls)
+        paths = C.explore(run, max_paths=3000)
+    finally:
+        cc._chop = real
+    nret = 0
+    for k, p in enumerate(paths):
+        P = f'path{k}'
+        if p.inconclusive:
+            obs.append({'name': f'{tag}:{P}', 'status': 'inconclusive', 'detail': p.inconclusive[:200], 't': 0})
+            continue
+        if p.exc is not None:
+            obs.append({'name': f'{tag}:{P}:raises', 'status': 'violated', 'detail': repr(p.exc)[:200], 't': 0})
+            cands.append(('C11:framechop:raises', case, repr(p.exc)[:100]))
+            continue
+        nret += 1
+        out, cs_ = p.value
+        # which (subframe, opening) pairs were clipped, and with what
+        done = {}
+        bad = []
+        # the propagated subframes are the first arguments of open-side calls: identify them by position
+        seen = []
+        for fr_, T, side in cs_:
+            if not isinstance(fr_, Tok) and all(fr_ is not x for x in seen):
+                seen.append(fr_)
+        for fr_, T, side in cs_:
+            if isinstance(fr_, Tok):
+                base_i = [i for i, x in enumerate(seen) if x is fr_.base][0]
+                ks = [k_ for k_ in range(nopen) if (T.value - cl[k_]).t.is_zero() and (fr_.T.value - op[k_]).t.is_zero()]
+                if side is not False or fr_.side is not True or not ks:
+                    bad.append('close-side clip not applied to the open-side clip of the same opening')
+                for k_ in ks:
+                    done[(base_i, k_)] = done.get((base_i, k_), 0) | 2
+            else:
+                base_i = [i for i, x in enumerate(seen) if x is fr_][0]
+                ks = [k_ for k_ in range(nopen) if (T.value - op[k_]).t.is_zero()]
+                if side is not True or not ks:
+                    bad.append('first clip of a subframe is not the open side of a listed opening')
+                for k_ in ks:
+                    done[(base_i, k_)] = done.get((base_i, k_), 0) | 1
+        ob = C.prove(f'{tag}:{P}:every clip is (open side at time_open[k]) then (close side at time_close[k])' + (': ' + bad[0] if bad else ''), C.B.const(not bad), pc=p.pc)
+        obs.append(ob_dict(ob))
+        if bad:
+            cands.append(('C11:framechop:pairing', case, bad[0]))
+        # propagated vertex times of subframe q (seen[q] in order of first use; unseen subframes: recompute by the shear)
+        # a pair that was not clipped must have an empty intersection: the opening lies entirely before or after the subframe
+        if len(seen) > nsub:
+            obs.append({'name': f'{tag}:{P}:subframes clipped are the propagated subframes', 'status': 'violated', 'detail': f'{len(seen)} distinct polygons clipped', 't': 0})
+            cands.append(('C11:framechop:pairing', case, 'unknown polygons clipped'))
+            continue
+        pf = frame.propagate_to(chopper.distance)
+        for q in range(nsub):
+            tq = list(pf.subframes[q].time.values)
+            # match the q-th propagated subframe with a seen polygon by its vertex terms
+            qi = [i for i, x in enumerate(seen) if all((a - b).t.is_zero() for a, b in zip(x.time.values, tq))]
+            for k_ in range(nopen):
+                st = done.get((qi[0], k_), 0) if qi else 0
+                if st & 1:
+                    continue
+                empty = C.all_of([op[k_] >= t_ for t_ in tq]) | C.all_of([cl[k_] <= t_ for t_ in tq]) | (cl[k_] <= op[k_])
+                ob = C.prove(f'{tag}:{P}:subframe {q} x opening {k_} skipped only if they cannot overlap', empty, pc=p.pc, timeout_ms=20000)
+                obs.append(ob_dict(ob))
+                if ob.status == 'violated':
+                    cands.append(('C11:framechop:skipped', {**case, 'model': {k2: float(v) for k2, v in (ob.model or {}).items()}}, f'subframe {q} never clipped against opening {k_}'))
+        # result = the non-empty close-side tokens in call order, at the chopper distance
+        exp = [c_ for c_ in cs_ if isinstance(c_[0], Tok)]
+        toks = [x for x in out.subframes]
+        okres = all(isinstance(x, Tok) and x.side is False for x in toks) and len(set(map(id, toks))) == len(toks)
+        ob = C.prove(f'{tag}:{P}:result = the non-empty doubly clipped polygons, each once, at the chopper distance', C.B.const(bool(okres)) & (out.distance.value == d0 + dd), pc=p.pc)
+        obs.append(ob_dict(ob))
+        if ob.status != 'discharged':
+            cands.append(('C11:framechop:result', case, 'result list'))
+    ob = C.prove(f'{tag}:some path returns', C.B.const(nret >= 1))
+    obs.append(ob_dict(ob))
+    return {'obligations': obs, 'candidates': cands, 'paths': len(paths)}
+
+
 def job_regular(j, seed):
     """Rectangle -> chop by one window at a symbolic distance: every subframe is regular over the reals."""
     which = j
@@ -341,6 +487,7 @@ def run(chk):
     run_jobs(chk, job_clip, [(n, c) for n in ns for c in (True, False)])
     run_jobs(chk, job_propagate, [0])
     run_jobs(chk, job_order, [0])
+    run_jobs(chk, job_framechop, [(1, 2), (2, 2)] if chk.tier == 'quick' else [(1, 2), (2, 2), (1, 3), (2, 3)])
     run_jobs(chk, job_regular, ['is_regular', 'subbounds'])
     run_jobs(chk, job_fp, [0])
     chk.bounds = {'polygon vertices': ns, 'clip': 'one clipping step from an arbitrary polygon, all inside patterns (inductive step)',
@@ -408,6 +555,46 @@ def replay_real(case):
             if out is None or len(out.time) != len(exp) or not np.allclose(out.time.values, [e[0] for e in exp], rtol=1e-12) or not np.allclose(out.wavelength.values, [e[1] for e in exp], rtol=1e-9):
                 bad.append(f'clip of {list(zip(t, w))} at T={T}: got {None if out is None else list(zip(out.time.values, out.wavelength.values))}')
                 break
+    elif kind == 'framechop':
+        m = case.get('model', {})
+        nsub, nopen = case['nsub'], case['nopen']
+
+        def clip(poly, T, keep_ge):
+            out = []
+            n = len(poly)
+            for i in range(n):
+                (t1, w1), (t2, w2) = poly[i], poly[(i + 1) % n]
+                in1 = t1 >= T if keep_ge else t1 <= T
+                in2 = t2 >= T if keep_ge else t2 <= T
+                if in1:
+                    out.append((t1, w1))
+                if in1 != in2:
+                    out.append((T, w1 + (T - t1) * (w2 - w1) / (t2 - t1)))
+            return out
+
+        def area(poly):
+            return 0.5 * abs(sum(poly[i][0] * poly[(i + 1) % len(poly)][1] - poly[(i + 1) % len(poly)][0] * poly[i][1] for i in range(len(poly)))) if len(poly) >= 3 else 0.0
+
+        d0, dd = m.get('d0', 0.0), m.get('dd', 0.0)
+        subs, polys = [], []
+        alpha = sc.constants.m_n.value / sc.constants.h.value * 1e-10
+        for q in range(nsub):
+            t = [m.get(f's{q}t{i}', 0.0) for i in range(3)]
+            w = [m.get(f's{q}w{i}', 1.0) for i in range(3)]
+            subs.append(cc.Subframe(time=sc.array(dims=['vertex'], values=t, unit='s'), wavelength=sc.array(dims=['vertex'], values=w, unit='angstrom')))
+            polys.append([(ti + dd * alpha * wi, wi) for ti, wi in zip(t, w)])
+        op = [m.get(f'open{k}', 0.0) for k in range(nopen)]
+        cl = [m.get(f'close{k}', op[k] + 1.0) for k in range(nopen)]
+        fr = cc.Frame(distance=sc.scalar(d0, unit='m'), subframes=subs)
+        ch = cc.Chopper(distance=sc.scalar(d0 + dd, unit='m'), time_open=sc.array(dims=['slit'], values=op, unit='s'), time_close=sc.array(dims=['slit'], values=cl, unit='s'))
+        got = fr.chop(ch)
+        got_area = sum(area(list(zip(s_.time.values, s_.wavelength.values))) for s_ in got.subframes)
+        exp_area = 0.0
+        for poly in polys:
+            for o, c in zip(op, cl):
+                exp_area += area(clip(clip(poly, o, True), c, False)) if c > o else 0.0
+        if abs(got_area - exp_area) > 1e-9 * max(1.0, exp_area):
+            bad.append(f'chopped frame covers area {got_area} in (t, lambda), the union of subframe x opening intersections {exp_area}: triangles {polys}, openings {list(zip(op, cl))}')
     elif kind == 'propagate':
         h = sc.constants.h.value
         mn = sc.constants.m_n.value
